@@ -32,6 +32,10 @@ class NameGen:
         else:
             n = [rng.choice(self.labels) if rng.random() < 0.8 else rbytes(rng, rng.randrange(1, 64)) for _ in range(rng.randrange(0, maxlabels))]
         n = n[-maxlabels:] if maxlabels else n
+        # RFC 1035: at most 255 octets on the wire; the decoder refuses longer names, so most names stay within
+        if rng.random() < 0.9:
+            while sum(len(l) + 1 for l in n) + 1 > 255:
+                n = n[1:]
         self.pool.append(n)
         if len(self.pool) > 40:
             self.pool.pop(rng.randrange(len(self.pool)))
@@ -74,16 +78,30 @@ def gen_opts(rng):
     return ";".join(out)
 
 
-def gen_msg(rng, nrec=None, big=False, wellformed=True, counts=None):
+def deep_chain_msg(rng, depth):
+    """`depth` owner names, each extending the one before by one label (opaque record data, so nothing else is written
+    in between): the encoder's pointer chain for the last name is depth-1 jumps long"""
+    labels = [bytes([rng.choice(b"abcdefghijklmnopqrstuvwxyz0123456789")]) for _ in range(depth)]
+    rrs = ["%s/1/%d/60/X:%s" % (name_str(labels[depth - k:]), rng.choice([1, 16, 99]), hexs(rbytes(rng, rng.choice([0, 4, 16]))))
+           for k in range(1, depth + 1)]
+    cut = rng.randrange(len(rrs) + 1) if rng.random() < 0.3 else len(rrs)
+    return "qid=%d fl=0001001%s op=0 rc=0 bs=512 ev=n q=%s/1/1 an=%s ns=%s ad=- ed=n" % (
+        rng.randrange(65536), "0", name_str(labels[-1:]), "|".join(rrs[:cut]) or "-", "|".join(rrs[cut:]) or "-")
+
+
+def gen_msg(rng, nrec=None, big=False, wellformed=True, counts=None, chain=None):
     ng = NameGen(rng)
-    if rng.random() < 0.1:
+    if chain or rng.random() < 0.1:
         # names extended one label at a time: compression pointer chains as deep as the names are long
-        depth = rng.choice([9, 10, 11, 12, 13, 20])
+        # 127 one-octet labels are the longest name there is (255 octets); beyond that the decoder must refuse
+        depth = chain or rng.choice([9, 10, 11, 12, 13, 20, 60, 126, 127, 128, 135])
         n = []
         for i in range(depth):
             n = [bytes([97 + i % 26])] + n
             ng.pool.append(list(n))
         ng.chain = [list(n[i:]) for i in range(len(n) - 1, -1, -1)]
+        if depth >= 60 and nrec is None and counts is None:
+            nrec = depth + 2                                   # enough records to write the whole chain
     q = ng.name()
     secs = []
     if nrec is None:
@@ -146,6 +164,11 @@ class DnsEnc(Suite):
                 size = rng.randrange(512, max(514, est))
                 out.append("dnsenc size=%d %s" % (size, m))
                 continue
+            elif r < 0.215:
+                # the longest names there are (127 labels, 255 octets), each extending the one before: the deepest
+                # pointer chain the encoder can build; 128 and more labels are outside what the decoder accepts
+                m = deep_chain_msg(rng, rng.choice([100, 126, 127, 127, 128, 135]))
+                size = rng.choice([65535, 4096])
             else:
                 m = gen_msg(rng, wellformed=rng.random() < 0.9)
                 size = rng.choice([512, 512, 513, 600, 1232, 4096, 65535, 65536, rng.randrange(512, 3000)])
@@ -250,13 +273,15 @@ class DnsDec(Suite):
             if r < 0.1:
                 b = rbytes(rng, pick_len(rng, [0, 1, 11, 12, 13, 16, 17], 200))
             else:
-                m = gen_msg(rng, wellformed=True)
+                deep = rng.random() < 0.03
+                # names around the 255-octet / 127-label limit, each extending the one before, written in full
+                m = deep_chain_msg(rng, rng.choice([120, 126, 127, 128, 129, 140])) if deep else gen_msg(rng, wellformed=True)
                 try:
-                    b = bytearray(enc_msg(m, rng, compress=rng.random() < 0.8))
+                    b = bytearray(enc_msg(m, rng, compress=(rng.random() < 0.8 and not deep)))
                 except Exception:
                     continue
                 k = rng.random()
-                if k < 0.35:
+                if deep or k < 0.35:
                     pass
                 elif k < 0.5:
                     b = b[:rng.randrange(len(b) + 1)]                      # every truncation point
@@ -290,14 +315,15 @@ class DnsDec(Suite):
                 else:
                     b += rbytes(rng, rng.randrange(1, 20))
                 b = bytes(b)
-            out.append("dnsdec " + hexs(b))
+            # half of the byte strings also go through decode -> encode -> decode (C14's first quantifier)
+            out.append(("dnsrt " if rng.random() < 0.5 or (r >= 0.1 and deep) else "dnsdec ") + hexs(b))
         return out
 
     def nontrivial(self, inp, obs):
         return len(inp) > 60
 
     def shrink_candidates(self, inp):
-        h = inp.split()[1]
+        verb, h = inp.split()[:2]
         if h == "-":
             return []
         b = bytes.fromhex(h)
@@ -306,7 +332,7 @@ class DnsDec(Suite):
         step = max(1, n // 2)
         while step >= 1:
             for i in range(0, n, step):
-                cands.append("dnsdec " + hexs(b[:i] + b[i + step:]))
+                cands.append(verb + " " + hexs(b[:i] + b[i + step:]))
             step //= 2
         return cands
 
